@@ -78,7 +78,7 @@ func vDamagedData(otherLoaders bool) {
 	}
 	switch dmgKind {
 	case 0:
-		pos := vrt.Range("pos", 0, len(data)-1)
+		pos := vrt.RangeClamp("pos", 0, len(data)-1)
 		nb := vrt.Byte("newbyte")
 		vrt.Assume(nb != data[pos])
 		dmg := append([]byte{}, data...)
@@ -90,7 +90,7 @@ func vDamagedData(otherLoaders bool) {
 			vrt.Reach("damage/record-byte")
 		}
 	case 1:
-		cut := vrt.Range("cut", 0, len(data)-1)
+		cut := vrt.RangeClamp("cut", 0, len(data)-1)
 		fs.WriteFile(dp, data[:cut])
 		vrt.Reach("damage/truncated")
 	case 2:
